@@ -1,4 +1,5 @@
 import BindgenModel.Driver.C03
+import BindgenModel.Driver.C15
 import BindgenModel.Driver.C18
 /-! `bgmodel`: one request per input line, one answer per output line. -/
 open BindgenModel
@@ -6,6 +7,7 @@ open BindgenModel
 def dispatch (line : String) : String :=
   match (line.trimAscii.toString.splitOn " ").filter (· ≠ "") with
   | "bf" :: rest => Driver.C03.handle rest
+  | "fmt" :: rest => Driver.C15.handle rest
   | "pp" :: rest => Driver.C18.handle rest
   | _ => "bad-op"
 
